@@ -13,8 +13,10 @@ package main
 //   from,n,p first height, number of blocks (to = from+n-1), parallelism
 //   lazy     0 = the consumer calls next() again immediately; 1 = each call is a scheduled action
 //   faults   `-` or `<req>:<kind>,…`  req = h<k> | b<k> (getblockhash / getblock of height from+k)
-//            kind = t transport error | r RPC error object | a HTTP 401 | z body `null` |
-//                   s non-string result | x non-hex block | y truncated block | n block that does not link
+//            kind = t transport error | r RPC error object (code -1) | o RPC error -8 (height out of range) |
+//                   f RPC error -5 (not found) | a HTTP 401 | z body `null` |
+//                   s non-string result | x non-hex block | y truncated block | n block that does not link |
+//                   w sibling of the previous block (links, one height lower; Go-side oracles only)
 //   cancel   `-` | d<k> (inside the consumer, right after k deliveries; d0 = before the call) |
 //            q<k> (by the controller at its k-th quiescent point)
 //   choices  `-` or i.j.k… index into the enabled actions at each quiescent point (0 when exhausted), or
@@ -240,7 +242,7 @@ func strmParseSpec(f []string) (*strmSpec, error) {
 	if f[6] != "-" {
 		for _, it := range strings.Split(f[6], ",") {
 			kv := strings.Split(it, ":")
-			if len(kv) != 2 || len(kv[1]) != 1 || len(kv[0]) < 2 || !strings.Contains("trazsxynw", kv[1]) {
+			if len(kv) != 2 || len(kv[1]) != 1 || len(kv[0]) < 2 || !strings.Contains("trazofsxynw", kv[1]) {
 				return nil, errors.New("fault")
 			}
 			s.faults[kv[0]] = kv[1][0]
@@ -387,6 +389,10 @@ func (run *strmRun) respond(pr *strmReq, kind byte) (strmResp, string) {
 		return strmResp{err: errors.New("dial tcp: connection refused (injected)")}, "e"
 	case 'r':
 		return strmResp{status: 500, body: `{"result":null,"error":{"code":-1,"message":"injected failure"},"id":` + pr.rpcID + "}\n"}, "e"
+	case 'o': // the answer bitcoind gives for a height beyond its tip
+		return strmResp{status: 500, body: `{"result":null,"error":{"code":-8,"message":"Block height out of range"},"id":` + pr.rpcID + "}\n"}, "e"
+	case 'f':
+		return strmResp{status: 500, body: `{"result":null,"error":{"code":-5,"message":"Block not found"},"id":` + pr.rpcID + "}\n"}, "e"
 	case 'a':
 		return strmResp{status: 401, body: ""}, "e"
 	case 'z':
@@ -1197,8 +1203,8 @@ func init() {
 	regRunner("C16", runC16)
 }
 
-var strmErrKindsHash = []byte("traz")
-var strmErrKindsBlock = []byte("trazsxy")
+var strmErrKindsHash = []byte("trazof")
+var strmErrKindsBlock = []byte("trazofsxy")
 
 func runC16(r *Runner) string {
 	seedBase := r.rng.Int63n(1 << 20)
@@ -1383,7 +1389,7 @@ func runC16(r *Runner) string {
 	return "every case is one run of the real blockscan code (StreamBlocks / StreamBlocksUnordered / UpdateUtxos) against a parking " +
 		"http.RoundTripper in a child process: (mode, from, n, p, consumer laziness, chain seed, fault plan of at most two faults keyed by " +
 		"request position, cancellation point, release-order choices). Exhaustive part: depth-first enumeration of every release order for " +
-		"n<=3, p<=2 (quick tier: for n=3 only the plans with <=1 fault and no cancel), every plan of <=2 faults (one error kind per position, rotated over transport error / RPC error / " +
+		"n<=3, p<=2 (quick tier: for n=3 only the plans with <=1 fault and no cancel), every plan of <=2 faults (one error kind per position, rotated over transport error / RPC errors with codes -1, -8, -5 / " +
 		"401 / null body / non-string / non-hex / truncated block, plus non-linking block) and cancellation at every delivery point; a separate sweep " +
 		"serves a sibling of the previous block (same previous-hash as the block one height lower) while their common predecessor is outstanding (Go-side oracles only); a separate sweep " +
 		"puts every concrete fault kind at every position. Directed part: the block of the second height completes last (policy L1), so its " +
